@@ -105,6 +105,19 @@ def laws(rng):
             out.append(('filter_select_commute', {'pipeline': p, 'sel': sel, 'select_then_filter': a, 'filter_then_select': b}))
         r = rng.randint(1, 3)
         law('tile_eq_concat', lambda: ds.tile(r), lambda: lazy_dataset.concatenate(*([ds] * r)), ('iter', 'len', 'gets'), {'reps': r})
+        # the same law in front of a per-epoch reshuffle with equally seeded generators (two epochs)
+        if n >= 2:
+            seed2 = rng.randrange(1 << 30)
+
+            def mk():
+                return impl.build(p).shuffle(reshuffle=True, rng=np.random.RandomState(seed2)).map(f)
+            A, B = mk(), mk()
+            ta, tb = A.tile(r), lazy_dataset.concatenate(*([B] * r))
+            for epoch in range(2):
+                la, lb = list(ta), list(tb)
+                if la != lb:
+                    out.append(('tile_eq_concat_reshuffle', {'pipeline': p, 'reps': r, 'seed': seed2, 'epoch': epoch, 'tile': la, 'concat': lb}))
+                    break
     return out, p
 
 
